@@ -12,6 +12,7 @@ from __future__ import annotations
 import asyncio
 import itertools
 import random
+import re
 import struct
 
 from simkit.boot import CAUSE, NODE
@@ -567,9 +568,20 @@ def execute(case: dict) -> dict:  # noqa: C901, PLR0915
         crafted_data[out] = kind
         return out
 
+    swept: set = set()       # (node, circuit id) of relay / exit entries their node removed for "no activity"
+
     async def main() -> None:
         await tw.build()
         await tw.introduce()
+        for node in tw.nodes:
+            for meth in ("remove_relay", "remove_exit_socket"):
+                inner_rm = getattr(node.ov, meth)
+
+                def rm(cid, additional_info="", *a, _inner=inner_rm, _node=node, **k):  # noqa: ANN001, ANN002, ANN003, ANN202
+                    if str(additional_info) == "no activity":
+                        swept.add((_node.name, cid))
+                    return _inner(cid, additional_info, *a, **k)
+                setattr(node.ov, meth, rm)
         # originators record whom they select
         for node in tw.nodes:
             inner = node.ov.send_cell
@@ -669,6 +681,13 @@ def execute(case: dict) -> dict:  # noqa: C901, PLR0915
             import os
             if os.environ.get("C08_DEBUG"):
                 print("RETRACE", circ.circuit_id, idx, circ.state, node.name if node else None, type(entry).__name__, why)
+            if entry is None:
+                mm = re.search(r"id (\d+) at (\w+)", str(why))
+                if mm and (mm.group(2), int(mm.group(1))) in swept:
+                    # the entry did not change hands: its node swept it for inactivity (duplicated relay_early cells use up the
+                    # relay's allowance early, later flagged cells are dropped and the path falls silent) - reclamation, C09's business
+                    world.probe("route_entry_swept_for_inactivity_not_judged")
+                    continue
             if entry is None or kbytes(entry.hop.keys) != kbytes(circ.hops[idx].keys):
                 c.violate("established_hops_immutable", "established_circuit_route_changed",
                           f"hop {idx + 1} of circuit {circ.circuit_id}: its routed entry matched the originator's keys when it was "
@@ -683,7 +702,7 @@ def execute(case: dict) -> dict:  # noqa: C901, PLR0915
         import os
         if os.environ.get("C08_WIRE"):
             for p3 in tw.wire:
-                if p3.label in ("CreatePayload", "CreatedPayload", "ExtendPayload", "ExtendedPayload", 0) and len(p3.data) < 400:
+                if os.environ.get("C08_WIRE") == "all" or (p3.label in ("CreatePayload", "CreatedPayload", "ExtendPayload", "ExtendedPayload", 0) and len(p3.data) < 400):
                     parts3 = cell_parts(p3.data)
                     print("WIRE %.3f" % p3.t, p3.id, p3.src_node, "->", p3.dst, p3.label, "cid", parts3[0] if parts3 else None, p3.fate, "dup" if p3.dup else "",
                           "cause", p3.cause)
